@@ -222,4 +222,28 @@ example : ((AWorld.init c16Witness).grun (· == ·) id
 example : ((c16Witness.grun (· == ·) id [.poll 0, .write 0 (.set 5), .poll 0]).2.map fun r =>
     match r with | .polled .pending => 0 | .polled (.ready v) => v | .wr _ wk => 100 + wk.length | _ => 999) = [0, 101, 5] := by decide
 
+/-- **`next_ref_now()` leaves the subscriber's own lock request alone**: the call acquires the lock through a request of
+    its own (`startFut (.nextRef i)` is its lock acquisition, `finishFut` its completion under the lock); the state of the
+    subscriber's stored `get_lock` future — in particular a registration made by an earlier stream poll, which a later release
+    of the lock has to wake — is what it was. -/
+theorem c16_next_ref_now_keeps_registration (eqv : Nat → Nat → Bool) (hash : Nat → Nat) (a : AWorld) (i : Nat) :
+    (a.startFut (.nextRef i)).1.subLock = a.subLock ∧
+    ∀ a' rs lw wk, (a.startFut (.nextRef i)).1.finishFut eqv hash (a.startFut (.nextRef i)).2.1 = some (a', rs, lw, wk) →
+      a'.subLock = a.subLock ∧ lw = [] := by
+  refine ⟨rfl, ?_⟩
+  intro a' rs lw wk h
+  by_cases hav : 1 ≤ a.sem.avail
+  · simp only [AWorld.startFut, ASem.acquire, hav, if_true, AWorld.finishFut, List.getElem?_append_right (Nat.le_refl _),
+      Nat.sub_self, List.getElem?_cons_zero, ne_eq, not_true_eq_false, if_false] at h
+    cases hn : (a.w.nextNow i) with
+    | none => simp [hn] at h
+    | some p =>
+      obtain ⟨w', v⟩ := p
+      simp only [hn, Option.some.injEq, Prod.mk.injEq] at h
+      obtain ⟨rfl, _, rfl, _⟩ := h
+      exact ⟨rfl, rfl⟩
+  · simp only [AWorld.startFut, ASem.acquire, hav, if_false, AWorld.finishFut, List.getElem?_append_right (Nat.le_refl _),
+      Nat.sub_self, List.getElem?_cons_zero, Bool.false_eq_true] at h
+    simp at h
+
 end EV
